@@ -75,14 +75,14 @@ def extra_checks(ctx):
             viol.append({"kind": "cost-schoolbook", "note": "cost(%dx%d)=%d > %d" % (a, b, c, a * b), "case": "h.bank_cost n:%d n:%d" % (a, b)})
     # thorough tier: the slow part of the in-Coq bank (2048, 4096, 1024x2047/2048, 256x16384)
     if ctx["tier"] == "thorough":
-        rc, out = ctx["run"]("../tools/gen_coqproject.sh && make proofs/MulCostBankBig.vo", cwd=os.path.join(ctx["root"], "coq"),
-                             timeout=5400, shell=True)
+        rc, out = ctx["run"]("coqc -noglob $(grep -E '^-Q' _CoqProject | tr '\\n' ' ') -Q slow BigNum slow/MulCostBankBig.v",
+                             cwd=os.path.join(ctx["root"], "coq"), timeout=5400, shell=True)
         cov["bank_big_theorem"] = "checked" if rc == 0 else "FAILED"
         if rc != 0:
-            broken.append("obligation:bank_big (proofs/MulCostBankBig.v)")
+            broken.append("obligation:bank_big (slow/MulCostBankBig.v)")
             cov["bank_big_log"] = out[-600:]
     else:
-        cov["bank_big_theorem"] = "not built in the quick tier (proofs/MulCostBankBig.v, ~12 min)"
+        cov["bank_big_theorem"] = "not built in the quick tier (coq/slow/MulCostBankBig.v, ~12 min)"
     return {"coverage": cov, "broken": broken, "violations": viol}
 
 # ---- in-Coq cross-check of the extraction (small shapes only) ----------------------------
